@@ -183,3 +183,22 @@ NOT_APPLICABLE = {
 }
 
 PENDING_REASON = 'check not registered yet in this revision of /verif (implementation in progress; see DESIGN.md section 4)'
+
+
+# property -> properties whose mechanisms it rests on (their rule instances are evaluated under it as well)
+DEPENDS = {
+    'C02': ['C01'],
+    'C03': ['C01'],
+    'C04': ['C03'],
+    'C05': ['C02', 'C03'],
+    'C06': ['C01'],
+    'C07': ['C01'],
+    'C09': ['C02', 'C03', 'C04'],
+    'C10': ['C02', 'C04'],
+    'C11': ['C03'],
+    'C12': ['C03'],
+    'C14': ['C06'],
+    'C16': ['C01'],
+    'C18': ['C02', 'C09'],
+    'C19': ['C03', 'C06'],
+}
